@@ -863,10 +863,10 @@ func c15hammerFile(r *rand.Rand, cs c15case, res *core.CaseResult) {
 // reflect it, while observers list and stat in a loop; afterwards the tree must be exactly what the writers left.
 func c15hammerOwnChanges(r *rand.Rand, cs c15case, res *core.CaseResult) {
 	m, _ := mem.NewFS()
-	writers := 1 + r.Intn(3)
-	observers := 1 + r.Intn(3)
-	shared := r.Intn(2) == 0 // all writers in one directory (distinct names) or one directory each
-	iters := 300 + r.Intn(500)
+	writers := 2 + r.Intn(2)
+	observers := 2 + r.Intn(2)
+	shared := r.Intn(3) != 0 // all writers in one directory (distinct names) or one directory each
+	iters := 500 + r.Intn(500)
 	dirOf := func(w int) string {
 		if shared {
 			return "d"
@@ -875,6 +875,14 @@ func c15hammerOwnChanges(r *rand.Rand, cs c15case, res *core.CaseResult) {
 	}
 	for w := 0; w < writers; w++ {
 		_ = hackpadfs.MkdirAll(m, dirOf(w), 0o755)
+	}
+	if r.Intn(2) == 0 {
+		// many entries elsewhere: whatever a listing has to walk through takes longer, so that changes of the listed
+		// directory fall INSIDE a listing more often
+		_ = hackpadfs.Mkdir(m, "zz-elsewhere", 0o755)
+		for i := 0; i < 1500; i++ {
+			_ = hackpadfs.WriteFullFile(m, fmt.Sprintf("zz-elsewhere/f%04d", i), nil, 0o644)
+		}
 	}
 	var mu sync.Mutex
 	var problems []string
